@@ -74,8 +74,10 @@ for _k in (1, 2, 3, 4):
 
 
 def close(a, b, tol):
-    a = np.asarray(a, dtype=float)
-    b = np.asarray(b, dtype=float)
+    """|a-b|_inf <= tol * max(1, |b|_inf) over ONE row / array (callers compare stacks row by row)"""
+    cplx = np.iscomplexobj(a) or np.iscomplexobj(b)
+    a = np.asarray(a, dtype=complex if cplx else float)
+    b = np.asarray(b, dtype=complex if cplx else float)
     if a.shape != b.shape:
         return False
     if a.size == 0:
@@ -85,23 +87,64 @@ def close(a, b, tol):
     return float(np.abs(a - b).max()) <= tol * max(1.0, float(np.abs(b).max()))
 
 
-def seq_vs_loop(p, fam, k, ns, x):
-    """the property predicate on the real code -> None if it holds, else a description"""
+def rows_close(out, ref, tol):
+    """indices of the rows of `out` that differ from the rows of `ref`, each row with its own scale (a stack that mixes
+    orders 3 and 38 of a fast-growing family must not compare order 3 with the tolerance of order 38)"""
+    return [i for i in range(len(ref)) if not close(out[i], ref[i], tol)]
+
+
+DTYPES = ['float64', 'int64', 'int32', 'float32', 'complex128']
+NSFORMS = ['list', 'tuple', 'ndarray', 'range', 'gen']
+NO_GENERATOR = {'cheby2', 'cheby4', 'cheby2_der', 'cheby4_der'}     # np.asarray(ns): need a sized sequence (see report)
+
+
+def coords_dtype(rng, kind, N, lo, hi, dtype):
+    shp = shape_of(kind, N)
+    if dtype in ('int64', 'int32'):
+        return np.asarray(rng.integers(int(math.ceil(lo)), int(math.floor(hi)) + 1, size=shp), dtype=dtype)
+    x = dyadic(rng, lo, hi, shp)
+    if dtype == 'complex128':
+        return x.astype(complex)
+    return x.astype(dtype)
+
+
+def ns_form(ns, form):
+    if form == 'tuple':
+        return tuple(ns)
+    if form == 'ndarray':
+        return np.asarray(ns)
+    if form == 'range' and ns == list(range(ns[0], ns[0] + len(ns))):
+        return range(ns[0], ns[0] + len(ns))
+    if form == 'gen':
+        return (n for n in ns)
+    return list(ns)
+
+
+def seq_vs_loop(p, fam, k, ns, x, form='list', ctx=None, item=None, case=None):
+    """the property predicate on the real code -> None if it holds, else a description.
+    Rows are compared one by one, each at 1e-10 (1e-5 for float32 input) relative to its own magnitude."""
     seq, one = FAMS[fam][0], FAMS[fam][1]
     want_shape = (len(ns), *np.shape(x))
+    tol = 2e-5 if x.dtype == np.float32 else 1e-10
     try:
-        ref = np.array([np.asarray(one(p, n, k, x), dtype=float) * np.ones(np.shape(x)) for n in ns])
+        ref = [np.asarray(one(p, n, k, x)) * np.ones(np.shape(x)) for n in ns]
     except Exception as ex:
         return f'scalar function raised {type(ex).__name__}: {ex}'
     try:
-        out = np.asarray(seq(p, list(ns), k, x))
+        if ctx is not None and form == 'list':
+            out = np.asarray(C.pure_call(ctx, item, case, lambda a, b: seq(p, a, k, b), list(ns), x))
+        else:
+            out = np.asarray(seq(p, ns_form(list(ns), form), k, x))
     except Exception as ex:
         return f'{fam}_seq raised {type(ex).__name__}: {ex}'
     if out.shape != want_shape:
         return f'{fam}_seq returned shape {out.shape}, expected (len(ns), *x.shape) = {want_shape}'
-    if not close(out, ref, 1e-10):
-        bad = [int(ns[i]) for i in range(len(ns)) if not close(out[i], ref[i], 1e-10)]
-        return f'{fam}_seq rows for orders {bad} differ from the single-order function (max |diff| {np.abs(out - ref).max():.3g})'
+    bad = rows_close(out, ref, tol)
+    if bad:
+        i = bad[0]
+        return (f'{fam}_seq rows for orders {[int(ns[j]) for j in bad]} differ from the single-order function '
+                f'(order {int(ns[i])}: seq {np.asarray(out[i]).ravel()[:3].tolist()} vs scalar {np.asarray(ref[i]).ravel()[:3].tolist()}; '
+                f'x.dtype={x.dtype}, result dtype={out.dtype})')
     return None
 
 
@@ -109,6 +152,15 @@ def all_subsets(top=8):
     out = []
     for mask in range(1, 1 << top):
         out.append([i for i in range(top) if mask >> i & 1])
+    return out
+
+
+def window_subsets(starts, width=5):
+    """every non-empty subset of {k..k+width-1} for each start k: the exhaustive small scope, moved up the order axis"""
+    out = []
+    for k in starts:
+        for mask in range(1, 1 << width):
+            out.append([k + i for i in range(width) if mask >> i & 1])
     return out
 
 
@@ -163,6 +215,8 @@ def _coords(rng, kind, N, lo, hi):
 
 
 def correspondence(ctx):
+    import warnings
+    warnings.simplefilter('ignore', RuntimeWarning)      # integer-typed coordinates wrap around in the all-integer recurrences (both routes alike)
     p = P()
     rng = ctx.rng
     deep = ctx.thorough or ctx.widen      # untranslatable items: widen the sweep to the thorough one
@@ -170,7 +224,8 @@ def correspondence(ctx):
     _clear()
     subsets = all_subsets(8)
     extra = random_lists(rng, scale(40, 1500))
-    lists = subsets + extra
+    windows = window_subsets(scale([6, 13, 21, 30, 35], list(range(3, 36, 2))))
+    lists = subsets + windows + extra
 
     # ---------------- 1. seq vs scalar loop on the real code, + Lean sweep model
     lines, meta = [], []
@@ -186,7 +241,22 @@ def correspondence(ctx):
                 case = {'family': fam, 'params': list(k), 'ns': list(ns), 'shape': list(x.shape), 'layout': kind}
                 tag = ('contig' if ns == list(range(ns[0], ns[0] + len(ns))) else 'gapped') + f'/start{min(ns[0], 3)}/{kind}'
                 ctx.case(f'seq:{fam}', case, nontrivial=ns != [0], tag=tag)
-                d = seq_vs_loop(p, fam, k, ns, x)
+                d = seq_vs_loop(p, fam, k, ns, x, ctx=ctx if li % 5 == 0 else None, item=f'seq:{fam}', case=case)
+                if d:
+                    ctx.pred_fail(f'seq:{fam}', case, d)
+            # coordinate dtypes other than float64 and other spellings of the order list
+            if li % scale(6, 2) == 0:
+                dt = DTYPES[1 + (li // scale(6, 2) + fi) % (len(DTYPES) - 1)]
+                if fam.endswith('_der') and dt.startswith('int'):
+                    dt = 'float32'      # integer coordinates in the *_der sweeps: handled under C09 (same allocation pattern)
+                form = NSFORMS[(li // scale(6, 2) + fi) % len(NSFORMS)]
+                if form == 'gen' and fam in NO_GENERATOR:
+                    form = 'tuple'
+                kind = SHAPES[(li + fi) % len(SHAPES)]
+                x = coords_dtype(rng, kind, len(ns), lo, hi, dt)
+                case = {'family': fam, 'params': list(k), 'ns': list(ns), 'shape': list(x.shape), 'layout': kind, 'dtype': dt, 'ns_form': form}
+                ctx.case(f'seq:{fam}', case, nontrivial=ns != [0], tag=f'dtype-{dt}/{form}')
+                d = seq_vs_loop(p, fam, k, ns, x, form=form)
                 if d:
                     ctx.pred_fail(f'seq:{fam}', case, d)
             if drv is not None:
@@ -258,6 +328,18 @@ def correspondence(ctx):
                 d = pairs_vs_loop(p, kind, prs, a, b, norm=norm)
                 if d:
                     ctx.pred_fail(f'pairs:{kind}', case, d)
+            if li % 4 == 0 and kind in ('zern', 'q2d', 'xy'):
+                dt = ('int64', 'float32', 'int32')[(li // 4) % 3]
+                if dt.startswith('int'):
+                    ai = np.asarray(rng.integers(0, 2, size=np.shape(a)) if kind != 'xy' else rng.integers(-2, 3, size=np.shape(a)), dtype=dt)
+                    bi = np.asarray(rng.integers(-2, 3, size=np.shape(a)), dtype=dt)
+                else:
+                    ai, bi = a.astype(dt), b.astype(dt)
+                case2 = {**case, 'dtype': dt}
+                ctx.case(f'pairs:{kind}', case2, nontrivial=len(prs) > 1, tag=f'dtype-{dt}')
+                d = pairs_vs_loop(p, kind, prs, ai, bi, norm=True, tol=2e-5 if dt == 'float32' else 1e-10)
+                if d:
+                    ctx.pred_fail(f'pairs:{kind}', case2, d)
             if kind == 'zern' and li % 2 == 0:
                 r0 = float(dyadic(rng, 0, 1, ()))
                 tp = [((n - abs(m)) // 2, abs(m)) for n, m in prs]
@@ -308,15 +390,15 @@ def correspondence(ctx):
             ctx.disagree('malformed:empty', {'family': fam}, 'accepted an empty order list', 'model: none')
 
 
-def pairs_vs_loop(p, kind, prs, a, b, norm=True):
+def pairs_vs_loop(p, kind, prs, a, b, norm=True, tol=1e-10):
     a0, b0 = np.array(a, copy=True), np.array(b, copy=True)
-    d = _pairs_vs_loop(p, kind, prs, a, b, norm)
+    d = _pairs_vs_loop(p, kind, prs, a, b, norm, tol)
     if d is None and not (np.array_equal(a, a0) and np.array_equal(b, b0)):
         return f'{kind} seq modified its coordinate arguments in place'
     return d
 
 
-def _pairs_vs_loop(p, kind, prs, a, b, norm=True):
+def _pairs_vs_loop(p, kind, prs, a, b, norm=True, tol=1e-10):
     try:
         if kind == 'zern':
             out = np.asarray(p.zernike_nm_seq(prs, a, b, norm=norm))
@@ -328,9 +410,9 @@ def _pairs_vs_loop(p, kind, prs, a, b, norm=True):
             want = (len(prs), 2, *np.shape(a))
             if out.shape != want:
                 return f'zernike_nm_der_seq returned shape {out.shape}, expected {want}'
-            if close(out, ref, 1e-10):
+            if close(out, ref, tol):
                 return None
-            bad = [list(prs[i]) for i in range(len(prs)) if not close(out[i], ref[i], 1e-10)]
+            bad = [list(prs[i]) for i in range(len(prs)) if not close(out[i], ref[i], tol)]
             return f'zernike_nm_der_seq(norm={norm}) differs from zernike_nm_der for pairs {bad[:4]} (request {[list(q) for q in prs][:8]})'
         elif kind == 'q2d':
             out = np.asarray(p.Q2d_seq(prs, a, b))
@@ -345,22 +427,45 @@ def _pairs_vs_loop(p, kind, prs, a, b, norm=True):
         elif kind == 'xy_grid':
             out = np.array([o * np.ones(np.shape(a)) for o in p.xy_seq(prs, a, b)])
             ref = np.array([p.xy(m, n, a, b) * np.ones(np.shape(a)) for m, n in prs])
+            # xy and xy_seq share optimize_xy_separable: also compare with the monomials computed directly on the meshgrid
+            direct = np.array([a ** m * b ** n for m, n in prs])
+            bad = rows_close(ref, direct, tol)
+            if bad:
+                return (f'xy with the default cartesian_grid=True on a meshgrid differs from x^m y^n for pairs '
+                        f'{[list(prs[i]) for i in bad[:4]]}')
     except Exception as ex:
         return f'raised {type(ex).__name__}: {ex}'
     want = (len(prs), *np.shape(a))
     if out.shape != want:
         return f'{kind} seq returned shape {out.shape}, expected {want}'
-    if not close(out, ref, 1e-10):
-        bad = [list(prs[i]) for i in range(len(prs)) if not close(out[i], ref[i], 1e-10)]
-        return f'{kind} seq{"" if norm else "(norm=False)"} differs from the single-mode function for pairs {bad[:4]}'
+    bad = rows_close(out, ref, tol)
+    if bad:
+        return (f'{kind} seq{"" if norm else "(norm=False)"} differs from the single-mode function for pairs '
+                f'{[list(prs[i]) for i in bad[:4]]}')
+    if kind == 'q2d':
+        # independent azimuthal convention (Q2d and Q2d_seq share their tables): mode (n, m) = R_n^|m|(u) cos(m t) for m > 0,
+        # R_n^|m|(u) sin(|m| t) for m < 0, Qbfs_n(u) for m = 0, with R read off at t = 0
+        for i, (n, m) in enumerate(prs):
+            if m == 0:
+                want_i = p.Qbfs(n, a) * np.ones(np.shape(a))
+            else:
+                rad = p.Q2d(n, abs(m), a, np.zeros(np.shape(a))) * np.ones(np.shape(a))
+                want_i = rad * (np.cos(m * b) if m > 0 else np.sin(abs(m) * b))
+            if not close(out[i], want_i, tol):
+                return (f'Q2d_seq mode {[n, m]} is not R_n^|m|(u) * {"cos(m t)" if m > 0 else "sin(|m| t)" if m < 0 else "1 (= Qbfs)"} '
+                        f'(azimuthal convention)')
     return None
 
 
-def _det_coords(shape, lo, hi):
+def _det_coords(shape, lo, hi, dtype='float64'):
     n = int(np.prod(shape)) if shape else 1
+    if str(dtype).startswith('int'):
+        lo_i, hi_i = int(math.ceil(lo)), int(math.floor(hi))
+        v = np.array([lo_i + (3 * i + 1) % (hi_i - lo_i + 1) for i in range(n)], dtype=dtype)
+        return v.reshape(shape) if shape else v[0].reshape(())
     v = lo + (hi - lo) * (np.arange(1, n + 1) / (n + 1))
     v = np.round(v * 64) / 64
-    return np.asarray(v.reshape(shape) if shape else v[0], dtype=float)
+    return np.asarray(v.reshape(shape) if shape else v[0], dtype=dtype)
 
 
 def search(ctx, hints):
@@ -385,6 +490,18 @@ def search(ctx, hints):
                 d = seq_vs_loop(p, fam, plist[0], ns, x)
                 if d:
                     return {'item': f'seq:{fam}', 'input': {'family': fam, 'params': list(plist[0]), 'ns': ns, 'shape': list(s)}, 'detail': d}
+        for fam, (seq, one, plist, (lo, hi), drv, exact) in FAMS.items():
+            for dt in ('int64', 'float32', 'complex128'):
+                if fam.endswith('_der') and dt == 'int64':
+                    continue
+                for form in ('tuple', 'ndarray', 'gen'):
+                    if form == 'gen' and fam in NO_GENERATOR:
+                        continue
+                    x = _det_coords((3,), lo, hi, dt)
+                    d = seq_vs_loop(p, fam, plist[0], ns, x, form=form)
+                    if d:
+                        return {'item': f'seq:{fam}', 'input': {'family': fam, 'params': list(plist[0]), 'ns': ns, 'shape': [3],
+                                                                'dtype': dt, 'ns_form': form}, 'detail': d}
     for prs in ([(0, 0)], [(1, 1)], [(0, 1)], [(1, 0)], [(2, 0), (1, 1)], [(1, 1), (1, -1)], [(1, -1), (1, 1)], [(2, 2), (2, -2)],
                 [(1, 1), (1, 1)], [(2, 2), (1, -1), (2, 2)], [(3, 1), (0, 0), (2, -2)], [(1, 1), (3, 1), (3, -1), (1, -1)],
                 [(4, 1), (4, -1), (5, 1), (2, -1)], [(2, 2), (4, 2), (4, -2), (2, -2), (4, 2)]):
@@ -415,13 +532,14 @@ def replay(inp):
             a, b = np.meshgrid(xs, ys)
             kind = 'xy_grid'
         else:
-            a = _det_coords(shp, 0.1, 0.9)
-            b = _det_coords(shp, -0.8, 0.7)
-        d = pairs_vs_loop(p, kind, [tuple(q) for q in c['pairs']], a, b, norm=bool(c.get('norm', True)))
+            dt = c.get('dtype', 'float64')
+            a = _det_coords(shp, 0, 1, dt) if dt.startswith('int') else _det_coords(shp, 0.1, 0.9, dt)
+            b = _det_coords(shp, -2, 2, dt) if dt.startswith('int') else _det_coords(shp, -0.8, 0.7, dt)
+        d = pairs_vs_loop(p, kind, [tuple(q) for q in c['pairs']], a, b, norm=bool(c.get('norm', True)), tol=2e-5 if c.get('dtype') == 'float32' else 1e-10)
     elif fam in FAMS:
         lo, hi = FAMS[fam][3]
         k = tuple(c.get('params', FAMS[fam][2][0]))
-        d = seq_vs_loop(p, fam, k, c['ns'], _det_coords(shp, lo, hi))
+        d = seq_vs_loop(p, fam, k, c['ns'], _det_coords(shp, lo, hi, c.get('dtype', 'float64')), form=c.get('ns_form', 'list'))
     else:
         print('no replay routine for family', fam)
         return False
@@ -430,26 +548,30 @@ def replay(inp):
 
 
 MANIFEST_ENTRY = {
-    'technique': 'Lean 4 proof by induction over the sweep control flow + translator-generated shape/family facts + exhaustive '
-                 'small-scope differential testing of every *_seq against its scalar function',
-    'text': ('PROVED for all inputs (Lean 4, no sorry, standard axioms): `sweep_eq_map` — for EVERY recurrence family and EVERY '
-             'non-empty strictly ascending order list (gapped, any start, any length) the one-pass sweep with a running index returns '
-             'exactly `ns.map eval`, in order, one row per order; instantiated for jacobi/legendre/Qcon, hermite He/H, laguerre, '
-             'dickson1/2, Qbfs and the jacobi/hermite derivative sweeps; `table_lookup_eq_map` for every list of (n,m) pairs in any order '
-             'with repeats (zernike_nm_seq tables); the NumPy broadcasting shape rule: constants of shape (N,1,…,1) scale mode k by c_k for '
-             'every N and every coordinate shape, while (N,1) raises / aliases / mis-shapes for 2-D / (N,·) / 0-D coordinates.  '
-             'TRANSLATED from the current source and re-checked by the kernel each run: the shape of the constants in all eight Chebyshev '
-             '*_seq functions (symbolic in N and x.ndim), their Jacobi parameters and numerators (= those of the scalar functions), the '
-             'family and parameter that fill the xy_seq tables (theorem: term (m,n) = x^m y^n for all m,n), the zernike_nm_seq table '
-             'arguments and look-up index (= those of zernike_nm).  MODELLED AND COMPARED: every *_seq vs a Python loop over its scalar '
-             'function for all 255 ascending subsets of {0..7} + random gapped lists to order 40 on coordinate shapes (), (5,), (3,4), '
-             '(4,4), (len(ns),3), (2,3,4); vs the Lean sweep on Float and exactly on Rat; pair lists for Zernike / Zernike-der / 2D-Q / XY.  '
-             'ALSO TRANSLATED statement by statement (running index, conditional row writes into np.empty rows, early returns, for loop) '
-             'and PROVED equal to ns.map of the translated single-order function for every non-empty strictly ascending list: the bodies of '
-             'jacobi_seq, hermite_He_seq, hermite_H_seq, hermite_He_der_seq, hermite_H_der_seq, laguerre_seq, dickson1_seq, dickson2_seq.  '
-             'NOT COVERED: non-ascending order lists (outside the property); jacobi_der_seq, Qbfs_seq, laguerre_der_seq, zernike_nm_seq, '
-             'Q2d_seq, xy_seq bodies are not translated statement by statement (hand model + differential test; for the Chebyshev, '
-             'Legendre, Qcon wrappers the translated facts are their parameters, numerators and broadcast shapes).'),
-    'note': ('Trusted: Lean kernel + propext/Classical.choice/Quot.sound; tools/gen_c08.py symbolic shape reading of np.ones/np.squeeze/'
-             'reshape/newaxis; NumPy broadcasting = its shape rule.'),
+    'technique': 'Lean 4 proof by induction over the sweep control flow, on the hand model and on the statement-level translation of eight '
+                 '*_seq bodies + translator-generated shape/dtype/family facts + exhaustive small-scope differential testing of every *_seq',
+    'text': ('PROVED for all inputs (Lean 4, no sorry, standard axioms): `sweep_eq_map` — for EVERY recurrence family and EVERY non-empty '
+             'strictly ascending order list the one-pass sweep with a running index returns `ns.map eval`, in order, one row per order (hand '
+             'model of the control flow; instances for jacobi, hermite He/H, laguerre, dickson1/2, Qbfs and the jacobi/hermite derivative '
+             'sweeps); `table_lookup_eq_map` for every list of pairs; the NumPy broadcasting shape rule.  TRANSLATED from the current source '
+             'and re-checked by the kernel each run: the bodies of jacobi_seq, hermite_He_seq, hermite_H_seq, hermite_He_der_seq, '
+             'hermite_H_der_seq, laguerre_seq, dickson1_seq, dickson2_seq statement by statement (running index, conditional row writes, early '
+             'returns, loop; state addressed by generated variable-name accessors) — each PROVED to return ns.map of the TRANSLATED single-order '
+             'function for every non-empty strictly ascending list; the dtype of the rows of all nine value *_seq (theorem: it can hold floats '
+             'for bool/int/float/complex coordinates — false on the pinned tree); the shape of the constants in the eight Chebyshev *_seq '
+             '(symbolic in N and x.ndim), their parameters and numerators (mode formula = translated body of cheby1..4); legendre_seq / Qcon_seq '
+             'parameters, argument and factor (= those of legendre / Qcon); the family that fills the xy_seq tables (term (m,n) = x^m y^n); the '
+             'body of the final loop of zernike_nm_seq (= translated body of zernike_nm, for any sin/cos/sqrt).  MODELLED AND COMPARED: all 22 '
+             'one-index *_seq vs a Python loop over the scalar function, ROW BY ROW at 1e-10 of the row, for all 255 ascending subsets of {0..7}, '
+             'all subsets of moving windows {k..k+4} up to order 39, random gapped lists to order 40, shapes (), (5,), (3,4), (4,4), '
+             '(len(ns),3), (2,3,4), coordinate dtypes float64/int64/int32/float32/complex128, order lists as list/tuple/ndarray/range/generator, '
+             'pure_call (arguments not modified, second call equal); Lean sweep on Float and exactly on Rat; pair lists (both signs, shared |m|, '
+             'repeats, norm True/False, int/float32 coordinates) for Zernike / Zernike-der / 2D-Q / XY with independent oracles (x^m y^n on '
+             'meshgrids with the default flag, 2D-Q azimuthal convention).  NOT COVERED / not tied by translation: jacobi_der_seq, Qbfs_seq, '
+             'laguerre_der_seq, legendre_der_seq, zernike_nm_der_seq, Q2d_seq, xy_seq table-building loops and the table extents of '
+             'zernike_nm_seq (hand model + differential test only); integer coordinates in the *_der sweeps (handled under C09); generators as '
+             '`ns` for cheby2/4 (np.asarray(ns)); non-ascending lists and python-scalar x (outside the property).'),
+    'note': ('Trusted: Lean kernel + propext/Classical.choice/Quot.sound; tools/gen_c08.py (statement translation; symbolic shape reading of '
+             'np.ones/np.squeeze/reshape/newaxis; dtype expressions x.dtype / np.result_type(x, 1.0) / config.precision); NumPy broadcasting = its '
+             'shape rule; copy-vs-view of out[k] = v and in-place products on shared table rows are tested (norm=False, +-m pairs), not modelled.'),
 }
